@@ -338,11 +338,11 @@ class PureEval:
                 if len(seq) > max(64, self.MAX_ITER):
                     raise FevalError("comprehension too long")
                 for x in seq:
-                    e2 = dict(e)
+                    e2 = _flat(e)
                     self._bind(g.target, x, e2)
                     if all(self.ev(c, e2) for c in g.ifs):
                         rec(gi + 1, e2)
-            rec(0, dict(env))
+            rec(0, _flat(env))
             return set(out) if isinstance(node, ast.SetComp) else (list(out) if isinstance(node, ast.ListComp) else tuple(out))
         if isinstance(node, ast.Attribute):
             base = self.ev(node.value, env)
@@ -406,6 +406,15 @@ _CONT = object()
 class BlockOutcome(Exception):
     def __init__(self, kind, node=None):
         self.kind, self.node = kind, node
+
+
+class WitnessRaise(BlockOutcome):
+    """An operation of the evaluated code on witness VALUES (subscript, arithmetic, comparison) raises a builtin exception: the code under
+    evaluation stops there, exactly as it would when run - not a gap of the evaluator."""
+
+    def __init__(self, node, exc):
+        super().__init__("raise", node)
+        self.exc = exc
 
 
 class BlockEval(PureEval):
@@ -480,6 +489,46 @@ class BlockEval(PureEval):
         if isinstance(node, ast.JoinedStr):
             return "<text>"
         return super().ev(node, env)
+
+
+class ChainEnv(dict):
+    """The frame of a helper function defined inside another function: names it binds are its own, names it declares nonlocal are written to
+    the enclosing frame, every other name is read from the enclosing frame."""
+
+    def __init__(self, parent, nonlocals):
+        super().__init__()
+        self.parent, self.nonlocals = parent, set(nonlocals)
+
+    def __contains__(self, k):
+        return dict.__contains__(self, k) or k in self.parent
+
+    def __getitem__(self, k):
+        if dict.__contains__(self, k):
+            return dict.__getitem__(self, k)
+        return self.parent[k]
+
+    def get(self, k, d=None):
+        return self[k] if k in self else d
+
+    def __setitem__(self, k, v):
+        if k in self.nonlocals:
+            self.parent[k] = v
+        else:
+            dict.__setitem__(self, k, v)
+
+    def pop(self, k, *d):
+        if dict.__contains__(self, k):
+            return dict.pop(self, k)
+        return d[0] if d else None
+
+
+def _flat(e):
+    """A snapshot of a frame for a comprehension scope (which only reads the enclosing names)."""
+    if isinstance(e, ChainEnv):
+        out = _flat(e.parent)
+        out.update(dict.items(e))
+        return out
+    return dict(e)
 
 
 class _Ret(Exception):
@@ -727,18 +776,23 @@ class ObjEval(BlockEval):
                 # a helper defined inside the function: it runs in the frame that defines it, which is exact when it has no parameters
                 # and every name it binds is declared nonlocal (the only form accepted)
                 a = st.args
-                bound = {t.id for t in ast.walk(st) if isinstance(t, ast.Name) and isinstance(t.ctx, ast.Store)}
                 declared = {x for n in ast.walk(st) if isinstance(n, ast.Nonlocal) for x in n.names}
-                if a.args or a.posonlyargs or a.kwonlyargs or a.vararg or a.kwarg or st.decorator_list or bound - declared \
-                        or any(isinstance(n, (ast.Yield, ast.YieldFrom, ast.Lambda)) or (isinstance(n, ast.FunctionDef) and n is not st) for n in ast.walk(st)):
-                    raise FevalError(f"nested function {st.name} is not a parameterless helper over nonlocal names")
+                if a.kwonlyargs or a.vararg or a.kwarg or a.defaults or st.decorator_list \
+                        or any(isinstance(n, (ast.Yield, ast.YieldFrom, ast.Lambda, ast.Global)) or (isinstance(n, ast.FunctionDef) and n is not st) for n in ast.walk(st)):
+                    raise FevalError(f"nested function {st.name} is not a plain helper (positional parameters, nonlocal names)")
+                pnames = [x.arg for x in a.posonlyargs + a.args]
 
-                def _closure(_st=st, _env=env):
+                def _closure(*args, _st=st, _env=env, _declared=declared, _pnames=pnames):
+                    if len(args) != len(_pnames):
+                        raise FevalError("arity")
                     self.depth += 1
                     if self.depth > 20:
                         raise FevalError("recursion too deep")
+                    frame = ChainEnv(_env, _declared)
+                    for k_, v_ in zip(_pnames, args):
+                        dict.__setitem__(frame, k_, v_)
                     try:
-                        self.exec(_st.body, _env)
+                        self.exec(_st.body, frame)
                         return None
                     except _Ret as ret:
                         return ret.value
@@ -841,7 +895,10 @@ class ObjEval(BlockEval):
                         raise FevalError("except clause over a non-builtin exception")
                     kinds.append(ts)
                 try:
-                    self.exec(st.body, env)
+                    try:
+                        self.exec(st.body, env)
+                    except WitnessRaise as w:
+                        raise w.exc
                 except (_Ret, _Brk, _Cnt, BlockOutcome, FevalError):
                     raise
                 except Exception as ex:  # noqa: BLE001 - raised by a builtin applied to a witness value
@@ -934,11 +991,11 @@ class ObjEval(BlockEval):
                     return
                 g = node.generators[gi]
                 for x in list(self.ev(g.iter, e)):
-                    e2 = dict(e)
+                    e2 = _flat(e)
                     self._bind(g.target, x, e2)
                     if all(self.ev(c, e2) for c in g.ifs):
                         rec(gi + 1, e2)
-            rec(0, dict(env))
+            rec(0, _flat(env))
             return out
         if isinstance(node, ast.Call) and isinstance(node.func, ast.Attribute):
             base = self.ev(node.func.value, env)
@@ -963,6 +1020,11 @@ class ObjEval(BlockEval):
                 r = getattr(base, m)(*args, **kwargs)
                 return tuple(r) if m in ("items", "keys", "values") else r
             raise FevalError(f"call of .{m} on {type(base).__name__}")
+        if isinstance(node, (ast.Subscript, ast.BinOp, ast.Compare, ast.UnaryOp)):
+            try:
+                return super().ev(node, env)
+            except (TypeError, KeyError, IndexError, ZeroDivisionError, OverflowError) as ex:
+                raise WitnessRaise(node, ex)
         return super().ev(node, env)
 
 
